@@ -718,6 +718,7 @@ def check_C07(ctx, replay=None):
 
 
 C07_THEOREMS = ["C07_defects_are_these", "C07_reject_iff", "C07_error_class", "C07_accepts", "C07_generated_code_assembles",
-                "C07_no_rule_dropped", "C07_unsupported_arch", "C07_records_with_tables", "C07_source_validation_is_the_model", "C07_nonvacuous"]
+                "C07_no_rule_dropped", "C07_unsupported_arch", "C07_records_with_tables", "C07_source_validation_is_the_model",
+                "C07_source_conditions_check_is_the_model", "C07_nonvacuous"]
 
 CHECKS.update({"C02": check_C02, "C03": check_C03, "C04": check_C04, "C05": check_C05, "C07": check_C07})
